@@ -221,7 +221,8 @@ def run_stream(stream, tier, seed, shard, nshards, scale=1.0):
 
     n = max(1, int(stream.n[tier] * scale))
     phases = [Phase.explicit, Phase.generate]
-    if stream.shrink:
+    noshrink = bool(os.environ.get("VERIF_NOSHRINK"))  # sensitivity runs: caught/missed only
+    if stream.shrink and not noshrink:
         phases.append(Phase.shrink)
     sett = settings(
         max_examples=n,
@@ -246,7 +247,7 @@ def run_stream(stream, tier, seed, shard, nshards, scale=1.0):
         except Fail as f:
             f = last.get("fail", f)
             case = last.get("case")
-            if stream.reduce is not None and case is not None:
+            if stream.reduce is not None and case is not None and not noshrink:
                 case, f = _reduce(stream, case, f)
             return stats, _failrec(stream, f, case)
         return stats, None
@@ -257,7 +258,7 @@ def run_stream(stream, tier, seed, shard, nshards, scale=1.0):
     except Fail as f:
         f = last.get("fail", f)
         case = last.get("case")
-        if stream.reduce is not None:
+        if stream.reduce is not None and not noshrink:
             case, f = _reduce(stream, case, f)
         return stats, _failrec(stream, f, case)
     return stats, None
@@ -481,8 +482,16 @@ def run_regressions(pid, mod, avoid, total):
     return out
 
 
+def _out_root():
+    """Runs against a scratch copy of the library (SYSLOSS_SRC: sensitivity experiments) must
+    not overwrite the evidence / replays of the real tree."""
+    if os.environ.get("SYSLOSS_SRC"):
+        return os.path.join(HERE, "scratch", "mut")
+    return HERE
+
+
 def write_replay(pid, failure):
-    d = os.path.join(HERE, "replays", pid)
+    d = os.path.join(_out_root(), "replays", pid)
     os.makedirs(d, exist_ok=True)
     rec = dict(failure)
     rec["property"] = pid
@@ -523,7 +532,7 @@ def replay_file(pid, path):
 
 
 def write_evidence(pid, mod, tier, seed, total, per_stream, nviol, wall, kf_lines, nshards):
-    d = os.path.join(HERE, "evidence")
+    d = os.path.join(_out_root(), "evidence")
     os.makedirs(d, exist_ok=True)
     streams = {}
     exhaustive = False
